@@ -405,17 +405,80 @@ func rsRegisterNewEI(res Resolver, ei EquivInfo) {
 	frt.PipeUnit(eqsItems(ei.eset), (func(_r0 []string) { slice.Iter((func(_r0 string) { rsRegisterTo(res, ei, _r0) }), _r0) }))
 }
 
+func resolveOneTypeVarIn(path []string, rsv Resolver, tv TypeVar) FType {
+	isTv := func(n string) bool {
+		return frt.OpEqual(n, tv.Name)
+	}
+	ei := rsLookupEI(rsv, tv.Name)
+	rcand := ei.resType
+	return frt.IfElse(slice.Forany(isTv, path), (func() FType {
+		switch (rcand).(type) {
+		case FType_FRecord:
+			return rcand
+		default:
+			return New_FType_FTypeVar(tv)
+		}
+	}), (func() FType {
+		npath := slice.PushLast(tv.Name, path)
+		recurse := (func(_r0 TypeVar) FType { return resolveOneTypeVarIn(npath, rsv, _r0) })
+		res := (func() FType {
+			switch _v16 := (rcand).(type) {
+			case FType_FTypeVar:
+				tv2 := _v16.Value
+				return frt.IfElse(frt.OpEqual(tv2.Name, tv.Name), (func() FType {
+					return rcand
+				}), (func() FType {
+					return transTVFType(recurse, rcand)
+				}))
+			default:
+				return transTVFType(recurse, rcand)
+			}
+		})()
+		switch (res).(type) {
+		case FType_FTypeVar:
+			return res
+		default:
+			frt.IfOnly(slice.Forany(isTv, collectTVarFType(res)), (func() {
+				PanicNow("Infinite (self referential) type is inferred.")
+			}))
+			return res
+		}
+	}))
+}
+
+func resolveOneTypeVar(rsv Resolver, tv TypeVar) FType {
+	return resolveOneTypeVarIn(slice.New[string](), rsv, tv)
+}
+
+func resolveType(rsv Resolver, ftp FType) FType {
+	return transTVFType((func(_r0 TypeVar) FType { return resolveOneTypeVar(rsv, _r0) }), ftp)
+}
+
+func viaResolver(res Resolver, ft FType) FType {
+	switch (ft).(type) {
+	case FType_FFieldAccess:
+		return resolveType(res, ft)
+	default:
+		return ft
+	}
+}
+
+func eiViaResolver(res Resolver, ei EquivInfo) EquivInfo {
+	return EquivInfo{eset: ei.eset, resType: viaResolver(res, ei.resType)}
+}
+
 func updateResOne(res Resolver, rel UniRel) []UniRel {
-	ei1 := rsLookupEI(res, rel.SrcV)
-	switch _v16 := (rel.Dest).(type) {
+	ei1 := frt.Pipe(rsLookupEI(res, rel.SrcV), (func(_r0 EquivInfo) EquivInfo { return eiViaResolver(res, _r0) }))
+	dest := viaResolver(res, rel.Dest)
+	switch _v17 := (dest).(type) {
 	case FType_FTypeVar:
-		tvd := _v16.Value
-		ei2 := rsLookupEI(res, tvd.Name)
+		tvd := _v17.Value
+		ei2 := frt.Pipe(rsLookupEI(res, tvd.Name), (func(_r0 EquivInfo) EquivInfo { return eiViaResolver(res, _r0) }))
 		nei, rels := frt.Destr2(eiUnion(ei1, ei2))
 		rsRegisterNewEI(res, nei)
 		return rels
 	default:
-		nei, rels := frt.Destr2(eiUpdateResT(ei1, rel.Dest))
+		nei, rels := frt.Destr2(eiUpdateResT(ei1, dest))
 		return frt.IfElse(slice.IsEmpty(rels), (func() []UniRel {
 			return emptyRels()
 		}), (func() []UniRel {
@@ -443,37 +506,6 @@ func transTypeLfd(transTV func(TypeVar) FType, lfd LetFuncDef) LetFuncDef {
 	nparams := slice.Map(transV, lfd.Params)
 	nbody := transTVBlock(transTV, lfd.Body)
 	return LetFuncDef{Fvar: nfvar, Params: nparams, Body: nbody}
-}
-
-func resolveOneTypeVarIn(path []string, rsv Resolver, tv TypeVar) FType {
-	frt.IfOnly(slice.Forany(func(n string) bool {
-		return frt.OpEqual(n, tv.Name)
-	}, path), (func() {
-		PanicNow("Infinite (self referential) type is inferred.")
-	}))
-	npath := slice.PushLast(tv.Name, path)
-	recurse := (func(_r0 TypeVar) FType { return resolveOneTypeVarIn(npath, rsv, _r0) })
-	ei := rsLookupEI(rsv, tv.Name)
-	rcand := ei.resType
-	switch _v17 := (rcand).(type) {
-	case FType_FTypeVar:
-		tv2 := _v17.Value
-		return frt.IfElse(frt.OpEqual(tv2.Name, tv.Name), (func() FType {
-			return rcand
-		}), (func() FType {
-			return transTVFType(recurse, rcand)
-		}))
-	default:
-		return transTVFType(recurse, rcand)
-	}
-}
-
-func resolveOneTypeVar(rsv Resolver, tv TypeVar) FType {
-	return resolveOneTypeVarIn(slice.New[string](), rsv, tv)
-}
-
-func resolveType(rsv Resolver, ftp FType) FType {
-	return transTVFType((func(_r0 TypeVar) FType { return resolveOneTypeVar(rsv, _r0) }), ftp)
 }
 
 func resolveExprType(rsv Resolver, expr Expr) Expr {
